@@ -314,7 +314,9 @@ class TGen:
 
     def p_strpred(self, d):
         fn = self.rnd.choice(["contains", "startsWith", "endsWith"])
-        return Node("meth", "bool", fn, self.gen("string", d), self.gen("string", min(d, 1)))
+        # both spellings: receiver.f(x) and the global form f(receiver, x)
+        kind = "meth" if self.rnd.random() < 0.65 else "call"
+        return Node(kind, "bool", fn, self.gen("string", d), self.gen("string", min(d, 1)))
 
     def p_quant(self, d):
         et = self.rnd.choice(ELEM_TYPES)
@@ -373,7 +375,7 @@ class TGen:
         args = [self.gen("ts", d)]
         if self.rnd.random() < 0.4:
             args.append(Node("lit", "string", ("string", self.rnd.choice(["UTC", "+05:30", "-08:00", "00:00", "+14:00", "-12:00"]))))
-        return Node("meth", "int", name, *args)
+        return Node("meth" if self.rnd.random() < 0.75 else "call", "int", name, *args)
 
     def p_conv_num(self, t, d):
         src = self.rnd.choice([x for x in ("int", "uint", "double") if x != t and (x != "double" or "double" in self.f)] or ["int"])
